@@ -132,7 +132,7 @@ _ALL = {
         technique="taint analysis of index spaces; typestate; path rule",
     ),
     "C08": dict(
-        want=["T1", "U1", "U2", "K1@cumulative", "K3@cumulative", "K4@cumulative", "T3", "P1", "P8", "D4", "K7", "P28", "W5", "K4b", "T5"],
+        want=["T1", "U1", "U2", "K1@cumulative", "K3@cumulative", "K4@cumulative", "T3", "P1", "P8", "D4", "K7", "P28", "W5", "K4b", "T5", "U3"],
         explanation=("Decides the structure of the per-group prefix reduction: reducer tables (T1, skip and non-skip pairs); "
                      "the running value is read from the output at the group's previous accepted row (U1) and per-group "
                      "bookkeeping is updated only on accepted rows (U2); null keys skipped (K1), masked rows do not interfere "
@@ -142,7 +142,7 @@ _ALL = {
                      ' The cumulative kernels receive boolean masks only (K7).'
                      ' Converted cumulative results are not passed through dtype-changing pandas operations (P28).'
                      ' Null tests in the dtype-generic kernels use is_null (W5).'
-                     ' Per-group bookkeeping arrays that hold row positions are 64-bit, not of the code dtype (K4b); int64 views of temporal values are not routed through float64 (T5).'),
+                     ' Per-group bookkeeping arrays that hold row positions are 64-bit, not of the code dtype (K4b); int64 views of temporal values are not routed through float64 (T5); the non-skipping sum reducer must hand on the null sentinel of those views (U3, known finding).'),
         not_decided=["'last cumulative value equals the reduction' as a value relation (follows by induction, not performed)"],
         technique="GCNF tables; loop-body obligations; path pairing rule",
     ),
